@@ -42,7 +42,8 @@
 (* never for a line that carries a record number in column 80 (proposed    *)
 (* repair).  Element scan "firstblank" = the pinned _read_line1 (symbol    *)
 (* runs to the first blank at or after the slot start); "cap2" = the same  *)
-(* with the symbol capped at two columns (proposed repair).  Order "reuse" *)
+(* but a slot without any blank is symbol(2) + count(3) (proposed repair). *)
+(* Order "reuse"                                                           *)
 (* = the pinned reader loop: no check of the record sequence, records 2-4  *)
 (* update whatever record dictionary is lying around.                      *)
 (***************************************************************************)
@@ -174,13 +175,14 @@ CompositionOK(line) ==
    /\ ~AllBlank(SlotAt(line, 1))
 
 \* _read_line1's scan: symbol = columns ref .. (first blank at or after ref) - 1, count =
-\* int(columns blank .. ref + 4); stops at a slot that starts with a blank.  cap = 0: no
-\* cap on the symbol (pinned); cap = 2: the symbol has at most two columns (repair).
+\* int(columns blank .. ref + 4); stops at a slot that starts with a blank.  cap = 0: as
+\* pinned; cap = 2: when the five columns of the slot hold no blank the symbol is the
+\* first two of them (repair).
 RECURSIVE ScanFrom(_, _, _, _)
 ScanFrom(line, ref, k, cap) ==
    IF k > 4 THEN [elems |-> <<>>, bad |-> FALSE]
    ELSE LET b0 == FindBlank(line, ref)
-            b == IF cap > 0 /\ b0 > ref + cap THEN ref + cap ELSE b0
+            b == IF cap > 0 /\ b0 >= ref + 5 THEN ref + cap ELSE b0
         IN IF b = ref THEN [elems |-> <<>>, bad |-> FALSE]
            ELSE LET ct == Trim(SubSeq(line, b, ref + 4))
                     rest == ScanFrom(line, ref + 5, k + 1, cap)
